@@ -991,6 +991,12 @@ class MetricFrame:
             else:
                 raise ValueError(_FEATURE_LIST_NONSCALAR)
         elif isinstance(features, dict):
+            # Rows are matched by position: drop the index labels of any pandas values
+            # so that DataFrame.from_dict() cannot realign them by label
+            features = {
+                k: v.reset_index(drop=True) if isinstance(v, pd.Series) else v
+                for k, v in features.items()
+            }
             try:
                 df = pd.DataFrame.from_dict(features)
             except ValueError as ve:
